@@ -6,6 +6,7 @@ import (
 	"fmt"
 	"os"
 	"path/filepath"
+	"runtime/pprof"
 	"sort"
 	"strconv"
 	"sync"
@@ -47,6 +48,7 @@ type Run struct {
 	assume     []string
 	start      time.Time
 	sets       map[string]map[string]struct{}
+	stopProf   func()
 }
 
 // Start parses the common flags and opens the journal.
@@ -83,6 +85,12 @@ func Start(prop, rule string) *Run {
 	}
 	r.journal = f
 	r.J("start", map[string]any{"prop": prop, "tier": r.Tier, "seed": r.Seed})
+	if pp := os.Getenv("VERIF_CPUPROFILE"); pp != "" {
+		if f, err := os.Create(pp); err == nil {
+			pprof.StartCPUProfile(f)
+			r.stopProf = func() { pprof.StopCPUProfile(); f.Close() }
+		}
+	}
 	return r
 }
 
@@ -222,6 +230,9 @@ func (r *Run) Violations() int {
 // Finish writes verdict.json. The driver (tools/finalize.py) merges it with the race
 // reports, the child's exit status and known_findings.json and decides the exit code.
 func (r *Run) Finish() {
+	if r.stopProf != nil {
+		r.stopProf()
+	}
 	r.mu.Lock()
 	type kv struct {
 		Key   string      `json:"key"`
